@@ -32,6 +32,7 @@ type Contract struct {
 	AllowPanic bool
 	NoFrame    bool
 	Fuel       int
+	GhostVars  []GhostSet
 	Wakes      []Clause
 	Props     []string
 	File      string
@@ -49,6 +50,13 @@ type GhostHook struct {
 	Callee string // callee name with ordinal, e.g. "fn#0"
 	Assert []Clause
 	Assume []Clause
+	Sets   []GhostSet
+}
+
+// GhostSet: "set name = expr" (ghost variable update inside a hook) / "ghostvar name = expr" (initial value)
+type GhostSet struct {
+	Name string
+	E    Expr
 }
 
 type Clause struct {
@@ -124,8 +132,9 @@ func (cs *ContractSet) LoadContractFile(path, pkgPath string) error {
 	// join continuation lines: a "//@" line whose content starts with at least 6 spaces of
 	// indentation continues the previous clause? Keep it simple: a line ending with "\" continues.
 	var logical []struct {
-		text string
-		line int
+		text   string
+		line   int
+		indent int
 	}
 	for i := 0; i < len(lines); i++ {
 		l := strings.TrimSpace(lines[i])
@@ -138,6 +147,7 @@ func (cs *ContractSet) LoadContractFile(path, pkgPath string) error {
 			t = t[:k]
 		}
 		start := i
+		indent := len(t) - len(strings.TrimLeft(t, " \t"))
 		for strings.HasSuffix(strings.TrimSpace(t), "\\") && i+1 < len(lines) {
 			t = strings.TrimSuffix(strings.TrimSpace(t), "\\")
 			i++
@@ -152,16 +162,25 @@ func (cs *ContractSet) LoadContractFile(path, pkgPath string) error {
 			continue
 		}
 		logical = append(logical, struct {
-			text string
-			line int
-		}{strings.TrimSpace(t), start + 1})
+			text   string
+			line   int
+			indent int
+		}{strings.TrimSpace(t), start + 1, indent})
 	}
 	fail := func(line int, f string, a ...interface{}) error {
 		return fmt.Errorf("%s:%d: %s", path, line, fmt.Sprintf(f, a...))
 	}
+	fnSpecIndent, hookIndent := -1, -1
 	for _, ll := range logical {
 		t := ll.text
 		word, rest := splitWord(t)
+		// nested blocks (fnspec, before/after call) end with the first line that is not indented deeper
+		if curFnSpec != nil && ll.indent <= fnSpecIndent {
+			curFnSpec = nil
+		}
+		if curHook != nil && ll.indent <= hookIndent {
+			flushHook()
+		}
 		switch word {
 		case "func":
 			flushHook()
@@ -197,6 +216,24 @@ func (cs *ContractSet) LoadContractFile(path, pkgPath string) error {
 			cur, curLemma, curFnSpec = nil, nil, nil
 			curType = &TypeInv{Pkg: pkgPath, Type: strings.TrimSpace(rest)}
 			cs.TypeInvs[pkgPath+"."+curType.Type] = curType
+		case "ghostvar", "set":
+			eq := strings.Index(rest, "=")
+			if eq < 0 || cur == nil {
+				return fail(ll.line, "%s needs 'name = expr' inside a func", word)
+			}
+			ex, err := ParseExpr(rest[eq+1:])
+			if err != nil {
+				return fail(ll.line, "%v", err)
+			}
+			gs := GhostSet{Name: strings.TrimSpace(rest[:eq]), E: ex}
+			if word == "set" {
+				if curHook == nil {
+					return fail(ll.line, "set outside a before/after block")
+				}
+				curHook.Sets = append(curHook.Sets, gs)
+			} else {
+				cur.GhostVars = append(cur.GhostVars, gs)
+			}
 		case "fuel":
 			if cur != nil {
 				n, err := strconv.Atoi(strings.TrimSpace(rest))
@@ -320,6 +357,7 @@ func (cs *ContractSet) LoadContractFile(path, pkgPath string) error {
 			}
 			name := strings.TrimSuffix(strings.TrimSpace(rest), ":")
 			curFnSpec = &FnSpec{}
+			fnSpecIndent = ll.indent
 			cur.FnSpecs[name] = curFnSpec
 		case "before", "after":
 			flushHook()
@@ -331,6 +369,7 @@ func (cs *ContractSet) LoadContractFile(path, pkgPath string) error {
 			r := strings.TrimSuffix(strings.TrimSpace(rest), ":")
 			r = strings.TrimSpace(strings.TrimPrefix(r, "call"))
 			curHook = &GhostHook{When: word, Callee: r}
+			hookIndent = ll.indent
 		case "induct":
 			if curLemma != nil {
 				curLemma.Induct = strings.TrimSpace(rest)
@@ -710,7 +749,7 @@ func (p *parser) expectOp(s string) {
 
 func (p *parser) parseTop() Expr {
 	t := p.peek()
-	if t.kind == "id" && (t.s == "forall" || t.s == "exists") {
+	if t.kind == "id" && (t.s == "forall" || t.s == "exists") && p.quantAhead() {
 		p.next()
 		var vars []string
 		for {
@@ -718,7 +757,17 @@ func (p *parser) parseTop() Expr {
 			if v.kind != "id" {
 				panic(parseErr{"quantifier: expected variable"})
 			}
-			vars = append(vars, v.s)
+			// optional type: "k:string" (default int)
+			name := v.s
+			if p.isOp(":") {
+				p.next()
+				ty := p.next()
+				if ty.kind != "id" {
+					panic(parseErr{"quantifier: expected type after ':'"})
+				}
+				name += ":" + ty.s
+			}
+			vars = append(vars, name)
 			if p.isOp(",") {
 				p.next()
 				continue
@@ -730,6 +779,15 @@ func (p *parser) parseTop() Expr {
 		return EQuant{Forall: t.s == "forall", Vars: vars, Body: body}
 	}
 	return p.parseCond()
+}
+
+// quantAhead: "forall"/"exists" starts a quantifier only when followed by  ident ( "::" | "," | ":" ).
+func (p *parser) quantAhead() bool {
+	if p.pos+2 >= len(p.toks) {
+		return false
+	}
+	a, b := p.toks[p.pos+1], p.toks[p.pos+2]
+	return a.kind == "id" && b.kind == "op" && (b.s == "::" || b.s == "," || b.s == ":")
 }
 
 func (p *parser) parseCond() Expr {
@@ -760,7 +818,7 @@ func (p *parser) parseImp() Expr {
 		p.next()
 		// right associative; allow quantifier on the right
 		var r Expr
-		if t := p.peek(); t.kind == "id" && (t.s == "forall" || t.s == "exists") {
+		if t := p.peek(); t.kind == "id" && (t.s == "forall" || t.s == "exists") && p.quantAhead() {
 			r = p.parseTop()
 		} else {
 			r = p.parseImp()
@@ -785,7 +843,7 @@ func (p *parser) parseAnd() Expr {
 	for p.isOp("&&") {
 		p.next()
 		var r Expr
-		if t := p.peek(); t.kind == "id" && (t.s == "forall" || t.s == "exists") {
+		if t := p.peek(); t.kind == "id" && (t.s == "forall" || t.s == "exists") && p.quantAhead() {
 			r = p.parseTop()
 		} else {
 			r = p.parseCmp()
